@@ -177,6 +177,36 @@ class Family:
         return out
 
     # ------------------------------------------------------------ init state
+    def initial_states(self) -> List[FamState]:
+        """The state(s) __init__ leaves behind.  A table that a constructor argument switches on or off
+        (self._t = self.__all_t if <parameter> else ()) gives one initial state per alternative."""
+        base = self.initial_state()
+        out = [base]
+        if self.init is None:
+            return out
+        for n in self.init.node.body:
+            for attr, value, kind in self_store(n):
+                if isinstance(value, ast.IfExp):
+                    alts = []
+                    for b in (value.body, value.orelse):
+                        if isinstance(b, ast.Attribute) and isinstance(b.value, ast.Name) and b.value.id == "self" and (self.ci.name, b.attr) in self.tables.tables:
+                            alts.append(tuple(self.tables.table(self.ci.name, b.attr)))
+                        elif isinstance(b, (ast.Tuple, ast.List)) and not b.elts:
+                            alts.append(())
+                        else:
+                            alts = None
+                            break
+                    if alts:
+                        new = []
+                        for st in out:
+                            for rows in alts:
+                                s2 = st.copy()
+                                s2.tables[attr] = rows
+                                s2.versions[attr] = 0
+                                new.append(s2)
+                        out = new
+        return out
+
     def initial_state(self) -> FamState:
         st = FamState()
         if self.init is None:
@@ -376,6 +406,8 @@ class Family:
         c = chain(node)
         if c and len(c) == 2 and c[0] == "self" and c[1] in st.flags:
             return st.flags[c[1]]
+        if c and len(c) == 2 and c[0] == "self" and c[1] in st.tables:
+            return len(st.tables[c[1]]) > 0        # 'if self._sensors_extended:' - an optional table that may be empty
         if isinstance(node, ast.Compare) and len(node.ops) == 1 and norm(node.left) == "self.rated_power":
             try:
                 k = self.prog.consteval(node.comparators[0], fn.module)
